@@ -13,6 +13,9 @@ FIELD_CHARS = ["0", "1", "-", "+", " ", "_", "٣", "\t", "\x0c", "\x1d"]
 # further atoms (encode side and decode payloads up to a shorter length): separators that str.splitlines()
 # knows but the wire does not, and text that Unicode normalisation would rewrite
 EXTRA_ATOMS = ["\x1d", "\x0c", "\x85", "\u2028", "e\u0301", "\u037e", "\u2126", "\ufb01"]
+# characters that are special to formatting / escaping layers an implementation might put between fields and wire
+META_ATOMS = ["{", "}", "\\", "n", "0", "%", "s", '"', "'"]
+META_PAYLOADS = ["{}", "{0}", "{{x}}", "a{b", "c}d", '{"t":21.5}', "C:\\new\\notes.txt", "\\n", "a\\nb", "\\", "%s", "%(x)s", "100%", "\\r\\n", "\\x00"]
 FIELDS = ("node_id", "child_id", "type", "ack", "sub_type", "payload")
 
 
@@ -45,8 +48,12 @@ def check_encode(chunk):
         msg = Message(node_id=head[0], child_id=head[1], type=head[2], ack=head[3], sub_type=head[4], payload=payload)
         stats["encode_cases"] += 1
         want = (int(head[0]), int(head[1]), int(head[2]), int(head[3]), int(head[4]), payload)
-        line = msg.encode()
         rep = {"kind": "input", "check": PROP, "case": ["encode", [repr(h) for h in head], payload]}
+        try:
+            line = msg.encode()
+        except Exception as exc:  # pylint: disable=broad-except
+            viols.append(Violation(PROP, f"encode-raises|{type(exc).__name__}", f"encode of {short(want)} raised {type(exc).__name__}: {short(str(exc))}", rep))
+            continue
         if line is None:
             viols.append(Violation(PROP, "encode-fails", f"encode returned None for {short(want)}", rep))
             continue
@@ -146,6 +153,26 @@ def check_copy(chunk):
                 viols.append(Violation(PROP, "copy-gateway", "copy() lost the gateway reference", rep))
             if fields_of(msg) != (int(base[0]), int(base[1]), int(base[2]), int(base[3]), int(base[4]), base[5]):
                 viols.append(Violation(PROP, "copy-mutates-original", f"copy({kw}) changed the original {base}", rep))
+            # a copy of the copy, and a copy of a DECODED message whose field was assigned afterwards, start from the
+            # current field values (not from anything remembered from an earlier decode)
+            if mask in (0, 1, 32, 33, 63):
+                try:
+                    first = fields_of(cp)
+                    again = cp.copy(ack=1)
+                    want2 = first[:3] + (1,) + first[4:]
+                    if fields_of(again) != want2:
+                        viols.append(Violation(PROP, "copy-of-copy", f"copy({kw}).copy(ack=1) of {base}: {fields_of(again)}, expected {want2}", rep))
+                    line = msg.encode()
+                    if line is not None:
+                        dec = Message(line)
+                        dec.payload = "assigned"
+                        dec.sub_type = 40
+                        got3 = fields_of(dec.copy(**kw))
+                        want3 = tuple((int(kw[f]) if f != "payload" else kw[f]) if f in kw else ({"payload": "assigned", "sub_type": 40}.get(f, fields_of(msg)[i])) for i, f in enumerate(FIELDS))
+                        if got3 != want3:
+                            viols.append(Violation(PROP, "copy-after-assignment", f"decode({line!r}), assign payload/sub_type, copy({kw}): {got3}, expected {want3}", rep))
+                except (ValueError, TypeError):
+                    pass  # headers that do not encode (judged elsewhere)
         if not samples:
             samples.append(["copy", list(base)])
     return viols, stats, samples
@@ -157,6 +184,7 @@ def run(tier):
     maxlen = 4 if tier == "quick" else 5
     payloads = [p for p in strings(S_CHARS, maxlen) if wire_ok(p)]
     payloads += [p for p in strings(["a", " "] + EXTRA_ATOMS, 3) if wire_ok(p) and any(x in p for x in EXTRA_ATOMS)]
+    payloads += [p for p in strings(META_ATOMS, 3) if wire_ok(p) and any(x in p for x in META_ATOMS[:3])] + META_PAYLOADS
     hv = header_values()
     heads = set()
     base = (1, 0, 1, 0, 2)
